@@ -40,6 +40,25 @@ struct nni_msgq {
 
 static void nni_msgq_run_notify(nni_msgq *);
 
+#ifdef NNG_VERIF
+// Ring invariants, checked under mq_lock.
+static void
+msgq_verif_check(nni_msgq *mq, const char *where)
+{
+	if ((mq->mq_alloc < mq->mq_cap + 2) || (mq->mq_get >= mq->mq_alloc) ||
+	    (mq->mq_put >= mq->mq_alloc) || (mq->mq_len > mq->mq_cap + 1) ||
+	    (((mq->mq_get + mq->mq_len) % mq->mq_alloc) != mq->mq_put)) {
+		nni_verif_fail("C18",
+		    "msgq-ring-invariant %s cap=%u alloc=%u len=%u get=%u put=%u",
+		    where, mq->mq_cap, mq->mq_alloc, mq->mq_len, mq->mq_get,
+		    mq->mq_put);
+	}
+}
+#define MSGQ_VERIF_CHECK(q, w) msgq_verif_check(q, w)
+#else
+#define MSGQ_VERIF_CHECK(q, w) ((void) 0)
+#endif
+
 int
 nni_msgq_init(nni_msgq **mqp, unsigned cap)
 {
@@ -189,6 +208,7 @@ nni_msgq_run_getq(nni_msgq *mq)
 static void
 nni_msgq_run_notify(nni_msgq *mq)
 {
+	MSGQ_VERIF_CHECK(mq, "notify");
 	if (mq->mq_len < mq->mq_cap || !nni_list_empty(&mq->mq_aio_getq)) {
 		nni_pollable_raise(&mq->mq_sendable);
 	} else {
@@ -389,6 +409,7 @@ nni_msgq_resize(nni_msgq *mq, int cap)
 	nni_free(oldq, sizeof(nni_msg *) * oldalloc);
 
 out:
+	MSGQ_VERIF_CHECK(mq, "resize");
 	// Wake everyone up -- we changed everything.
 	nni_mtx_unlock(&mq->mq_lock);
 	return (0);
